@@ -289,14 +289,16 @@ func runC16(c *core.Ctx) {
 		// which methods can parseCredentials produce?
 		pcf := c.Fn(httpdp + ".parseCredentials")
 		produced := map[string]bool{}
-		ast.Inspect(pcf.Body, func(nd ast.Node) bool {
-			if kv, ok := nd.(*ast.KeyValueExpr); ok {
-				if id, ok := kv.Key.(*ast.Ident); ok && id.Name == "Method" {
-					produced[constName(pcf.Info(), kv.Value)] = true
+		for _, g := range withLocalHelpers(c.P, pcf) { // (a credentials literal may be built by an unexported helper)
+			ast.Inspect(g.Body, func(nd ast.Node) bool {
+				if kv, ok := nd.(*ast.KeyValueExpr); ok {
+					if id, ok := kv.Key.(*ast.Ident); ok && id.Name == "Method" {
+						produced[constName(g.Info(), kv.Value)] = true
+					}
 				}
-			}
-			return true
-		})
+				return true
+			})
+		}
 		c.Need(len(produced) >= 2, "credential methods produced by parseCredentials")
 		defaultDead := defPos.IsValid()
 		for m := range produced {
@@ -381,9 +383,40 @@ func runC16(c *core.Ctx) {
 			return e.Kind == core.EvCall && ok && fn.Name() == "RequiredPrivileges"
 		}
 		findOrAbort(c, f, "Statement.RequiredPrivileges", reqPriv, 1)
-		isAdmin := func(x ast.Expr) bool { return core.ExprStr(x) == "user.Admin" }
-		isBootstrap := func(x ast.Expr) bool { return strings.Contains(core.ExprStr(x), "cu.Admin") }
-		isNoUsers := func(x ast.Expr) bool { return strings.Contains(core.ExprStr(x), "n == 0") }
+		// (classified by what is tested, not by the names of the locals)
+		adminOf := func(x ast.Expr, typeSuffix string) bool {
+			found := false
+			ast.Inspect(x, func(nd ast.Node) bool {
+				if se, ok := nd.(*ast.SelectorExpr); ok && se.Sel.Name == "Admin" {
+					if t := f.Info().TypeOf(se.X); t != nil && strings.HasSuffix(strings.TrimPrefix(t.String(), "*"), typeSuffix) {
+						found = true
+					}
+				}
+				return !found
+			})
+			return found
+		}
+		isAdmin := func(x ast.Expr) bool {
+			se, ok := ast.Unparen(x).(*ast.SelectorExpr)
+			return ok && se.Sel.Name == "Admin" && adminOf(x, "UserInfo")
+		}
+		isBootstrap := func(x ast.Expr) bool { return adminOf(x, "CreateUserStatement") }
+		isNoUsers := func(x ast.Expr) bool {
+			found := false
+			ast.Inspect(x, func(nd ast.Node) bool {
+				be, ok := nd.(*ast.BinaryExpr)
+				if !ok || be.Op != token.EQL || !isZeroLit(f.Info(), be.Y) {
+					return true
+				}
+				if ce, ok := ast.Unparen(derefLocal(f, be.X)).(*ast.CallExpr); ok {
+					if se, ok := ce.Fun.(*ast.SelectorExpr); ok && se.Sel.Name == "UserCount" {
+						found = true
+					}
+				}
+				return !found
+			})
+			return found
+		}
 		// loops: statements loop and privileges loop
 		var stmtLoop, privLoop *core.Loop
 		for _, l := range f.Graph().Loops() {
